@@ -3,8 +3,9 @@
 Monitor: conservation monitor on W = copy(A) after apply(create(A, B)) (files(W) == files(B) on
 non-empty files) + immutability monitor on A and B (snapshots before/after create; thorough:
 syscall monitor showing no write-open / unlink under A or B)."""
-import os, re, shutil, subprocess
-from ..core import digest, build
+import os, re, shutil, subprocess, zlib
+from .. import text
+from ..core import digest, build, REPO
 from ..fmt import zipatch as zp
 
 LEVEL = "exploration"
@@ -27,7 +28,23 @@ ODD_NAMES = ["notes..txt", "v1..2", "a..b", "...x", "x...", ".hidden", "..data",
              "0", "-dash", "--", "con", "nul", "x" * 200]
 
 
+CRC32_POLY_PATTERN = bytes.fromhex("410671db01")      # the generator polynomial x^32 + ... + 1 as message bits (reflected CRC-32)
+
+# file name extensions: the common ones, and every short word the tree under test spells out in its patching code (an extension that
+# is treated specially can only be seen by a file that carries it)
+EXTENSIONS = ["patch", "tmp", "bak", "old", "log", "ver", "bck", "dat", "dat0", "index", "index2", "exe", "dll", "cfg", "ini", "txt", "var", "bk2", "lock", "part", "zip", "gz"]
+
+
+def extensions():
+    words = [w.strip(".") for w in text.tree_literals(REPO, ["patch.rs", "common.rs", "bootdata.rs", "gamedata.rs"])[1]]
+    return EXTENSIONS + sorted({w for w in words if 1 <= len(w) <= 10 and w.replace("_", "").isalnum()})
+
+
 def rname(rng):
+    if rng.random() < 0.12:
+        stem = "".join(rng.choice("abcdefghijklmnopqrstuvwxyz0123456789_") for _ in range(rng.randint(1, 8)))
+        e = rng.choice(extensions())
+        return stem + "." + (e if rng.random() < 0.8 else e.upper())
     if rng.random() < 0.15:
         return rng.choice(ODD_NAMES)
     return "".join(rng.choice("abcdefghijklmnopqrstuvwxyzABC0123456789_-.") for _ in range(rng.randint(1, 12))).strip(".") or "f"
@@ -73,8 +90,31 @@ def one(ctx, rng, P, use_strace):
             A[p] = d; B[p] = d
         elif k == "both-changed-same-size":
             A[p] = d
-            nd = bytearray(d); j = rng.randrange(len(nd)); nd[j] ^= 0xFF
+            nd = bytearray(d)
+            how = rng.choice(["one-byte", "one-byte", "first-byte", "last-byte", "same-crc32", "same-crc32", "same-bytes-other-order", "one-bit"])
+            if how == "same-crc32" and len(nd) >= 5:
+                # XOR-ing a multiple of the CRC-32 generator polynomial into a message leaves length and CRC-32 unchanged (checked against
+                # zlib below): a comparison by length + checksum takes such a pair for unchanged
+                for _ in range(rng.choice([1, 1, 3])):
+                    j = rng.randrange(len(nd) - 4)
+                    for t, x in enumerate(CRC32_POLY_PATTERN):
+                        nd[j + t] ^= x
+                if bytes(nd) == d or zlib.crc32(bytes(nd)) != zlib.crc32(d):
+                    nd = bytearray(d); nd[0] ^= 1; how = "one-bit"
+            elif how == "same-bytes-other-order" and len(set(nd)) >= 2:
+                i1 = rng.randrange(len(nd))
+                i2 = rng.choice([i for i in range(len(nd)) if nd[i] != nd[i1]])
+                nd[i1], nd[i2] = nd[i2], nd[i1]          # same length, byte sum, XOR and multiset
+            elif how == "first-byte":
+                nd[0] ^= rng.choice([1, 0x80, 0xFF])
+            elif how == "last-byte":
+                nd[-1] ^= rng.choice([1, 0x80, 0xFF])
+            elif how == "one-bit":
+                nd[rng.randrange(len(nd))] ^= 1 << rng.randrange(8)
+            else:
+                j = rng.randrange(len(nd)); nd[j] ^= 0xFF
             B[p] = bytes(nd)
+            ctx.stats.classes["both-changed-same-size:" + how] += 1
         else:
             A[p] = d
             B[p] = rdata(rng, P["maxsize"]) + b"!"
